@@ -77,7 +77,28 @@ def mutants_of(rel, qual, src):
             yield ("NEG", n.lineno, "if " + ast.unparse(n.test)[:60], "\n".join(out))
 
 
+class _Timeout(Exception):
+    pass
+
+
+def _alarm(signum, frame):
+    raise _Timeout()
+
+
 def run_one(args):
+    import signal
+
+    signal.signal(signal.SIGALRM, _alarm)
+    signal.alarm(30)
+    try:
+        return _run_one(args)
+    except _Timeout:
+        return "timeout"
+    finally:
+        signal.alarm(0)
+
+
+def _run_one(args):
     pid, rel, new_text, base_keys = args
     mod = importlib.import_module(f"sa.props.{pid.lower()}")
     try:
@@ -96,8 +117,8 @@ def run_one(args):
 
 
 def main():
-    args = [a for a in sys.argv[1:] if not a.startswith("--")]
     cap = int(sys.argv[sys.argv.index("--max") + 1]) if "--max" in sys.argv else 400
+    args = [a for a in sys.argv[1:] if not a.startswith("--") and not a.isdigit()]
     show = "--show" in sys.argv
     for pid in args:
         mod = importlib.import_module(f"sa.props.{pid.lower()}")
@@ -124,8 +145,8 @@ def main():
         print(f"{pid}: {len(anchors)} anchor functions, {len(jobs)} mutants: " + ", ".join(f"{k}={v}" for k, v in sorted(tally.items())))
         if show:
             for (rel, qual, kind, line, what), r in zip(meta, res):
-                if r == "silent":
-                    print(f"   silent {kind:5s} {rel}:{qual} L{line}: {what}")
+                if r in ("silent", "timeout"):
+                    print(f"   {r:7s} {kind:5s} {rel}:{qual} L{line}: {what}")
 
 
 if __name__ == "__main__":
